@@ -1,6 +1,9 @@
 //! C13: elliptic arcs.  SVG endpoint form -> centre form (all flag combinations, radii too small,
 //! rotations), round trip, Bezier approximations.  The algebraic part is compared with the Coq
 //! model (oracles: cos/sin of the rotation, square roots); everything is also checked directly.
+//! The second half of the file audits every public method of `Arc<S>`, `SvgArc<S>` and `ArcFlags`
+//! in f64 and f32 against an independent f64 reference of the ellipse (counters `audit_<method>`,
+//! measured worst cases `audit_worst_<scalar>_<quantity>`).
 use crate::util::*;
 use lyon_geom::{point, vector, Angle, Arc, ArcFlags, CubicBezierSegment, Point, QuadraticBezierSegment, SvgArc};
 use std::panic::AssertUnwindSafe;
@@ -289,6 +292,1472 @@ pub fn main(args: &Args) -> std::io::Result<()> {
             id += 1;
         }
     }
+    // ---- audit of every public method of arc.rs against the independent reference, in both scalar types
+    audit::<f64>(&mut st, args);
+    audit::<f32>(&mut st, args);
     w.finish()?;
     st.write(&args.out.join("c13_stats.json"))
+}
+
+// ====================================================================================================================
+// Audit of every public method of `Arc<S>`, `SvgArc<S>` and `ArcFlags` (arc.rs), in f64 and f32, against an independent
+// reference: the ellipse point at angle a is center + R(x_rotation) * (rx cos a, ry sin a) and the parameter t of an arc
+// maps to the angle start_angle + t * sweep_angle.  The reference is always evaluated in f64 on the exact values of the
+// arc's fields; `ME` is the machine epsilon of the scalar type under test and every tolerance is a small multiple of
+// ME * (magnitude of the coordinates + radius * magnitude of the angles), i.e. of what the representation can resolve.
+// ====================================================================================================================
+
+use lyon_geom::{LineSegment, Scalar, Segment};
+use std::collections::BTreeMap;
+use std::ops::Range;
+
+trait Sc: Scalar + 'static {
+    const NAME: &'static str;
+    const ME: f64;
+    fn to64(self) -> f64;
+    fn of64(v: f64) -> Self;
+}
+impl Sc for f64 {
+    const NAME: &'static str = "f64";
+    const ME: f64 = f64::EPSILON;
+    fn to64(self) -> f64 {
+        self
+    }
+    fn of64(v: f64) -> Self {
+        v
+    }
+}
+impl Sc for f32 {
+    const NAME: &'static str = "f32";
+    const ME: f64 = f32::EPSILON as f64;
+    fn to64(self) -> f64 {
+        self as f64
+    }
+    fn of64(v: f64) -> Self {
+        v as f32
+    }
+}
+
+type P2 = (f64, f64);
+fn p64<S: Sc>(p: Point<S>) -> P2 {
+    (p.x.to64(), p.y.to64())
+}
+fn v64<S: Sc>(p: lyon_geom::Vector<S>) -> P2 {
+    (p.x.to64(), p.y.to64())
+}
+fn dist(a: P2, b: P2) -> f64 {
+    (a.0 - b.0).hypot(a.1 - b.1)
+}
+fn seg_dist(p: P2, a: P2, b: P2) -> f64 {
+    let (vx, vy) = (b.0 - a.0, b.1 - a.1);
+    let l2 = vx * vx + vy * vy;
+    if l2 == 0.0 {
+        return dist(p, a);
+    }
+    let t = (((p.0 - a.0) * vx + (p.1 - a.1) * vy) / l2).max(0.0).min(1.0);
+    dist(p, (a.0 + vx * t, a.1 + vy * t))
+}
+/// difference of two angles brought into (-pi, pi]
+fn ang_diff(a: f64, b: f64) -> f64 {
+    let two_pi = 2.0 * std::f64::consts::PI;
+    let mut d = (a - b) % two_pi;
+    if d > std::f64::consts::PI {
+        d -= two_pi;
+    }
+    if d <= -std::f64::consts::PI {
+        d += two_pi;
+    }
+    d
+}
+
+/// The independent reference (f64).
+#[derive(Clone, Copy, Debug)]
+struct RefArc {
+    cx: f64,
+    cy: f64,
+    rx: f64,
+    ry: f64,
+    start: f64,
+    sweep: f64,
+    rot: f64,
+}
+
+impl RefArc {
+    fn of<S: Sc>(a: &Arc<S>) -> RefArc {
+        RefArc { cx: a.center.x.to64(), cy: a.center.y.to64(), rx: a.radii.x.to64(), ry: a.radii.y.to64(), start: a.start_angle.radians.to64(), sweep: a.sweep_angle.radians.to64(), rot: a.x_rotation.radians.to64() }
+    }
+    fn rmax(&self) -> f64 {
+        self.rx.abs().max(self.ry.abs())
+    }
+    fn rmin(&self) -> f64 {
+        self.rx.abs().min(self.ry.abs())
+    }
+    fn ang_mag(&self) -> f64 {
+        self.start.abs() + self.sweep.abs()
+    }
+    fn angle(&self, t: f64) -> f64 {
+        self.start + t * self.sweep
+    }
+    fn at_angle(&self, a: f64) -> P2 {
+        let (ex, ey) = (self.rx * a.cos(), self.ry * a.sin());
+        let (c, s) = (self.rot.cos(), self.rot.sin());
+        (self.cx + c * ex - s * ey, self.cy + s * ex + c * ey)
+    }
+    fn at(&self, t: f64) -> P2 {
+        self.at_angle(self.angle(t))
+    }
+    /// derivative with respect to the angle
+    fn d_angle(&self, a: f64) -> P2 {
+        let (ex, ey) = (-self.rx * a.sin(), self.ry * a.cos());
+        let (c, s) = (self.rot.cos(), self.rot.sin());
+        (c * ex - s * ey, s * ex + c * ey)
+    }
+    /// coordinates of p in the frame in which the ellipse is the unit circle
+    fn unit(&self, p: P2) -> P2 {
+        let (dx, dy) = (p.0 - self.cx, p.1 - self.cy);
+        let (c, s) = (self.rot.cos(), self.rot.sin());
+        ((c * dx + s * dy) / self.rx, (-s * dx + c * dy) / self.ry)
+    }
+    /// an upper bound of the distance from p to the ellipse (exact up to the angle between the ray from the centre and
+    /// the normal): the distance between p and the point of the ellipse on the same ray of the unit-circle frame
+    fn ellipse_dev(&self, p: P2) -> f64 {
+        let u = self.unit(p);
+        let l = u.0.hypot(u.1);
+        if l == 0.0 {
+            return self.rmin();
+        }
+        let local = (self.rx * u.0 / l).hypot(self.ry * u.1 / l);
+        (l - 1.0).abs() * local
+    }
+    /// what a coordinate in the scalar type can resolve on this arc: 8 ME (|centre| + rmax (2 + |angles|))
+    fn pt_tol(&self, me: f64) -> f64 {
+        8.0 * me * (self.cx.abs() + self.cy.abs() + self.rmax() * (2.0 + self.ang_mag()))
+    }
+    /// exact coordinate ranges over the swept angles: x(a) = cx + A cos(a - a0), y(a) = cy + B cos(a - a1)
+    fn ranges(&self) -> ((f64, f64), (f64, f64)) {
+        let (c, s) = (self.rot.cos(), self.rot.sin());
+        let one = |centre: f64, pc: f64, ps: f64, ends: (f64, f64)| {
+            let amp = pc.hypot(ps);
+            let ph = ps.atan2(pc);
+            let (lo, hi) = if self.sweep >= 0.0 { (self.start, self.start + self.sweep) } else { (self.start + self.sweep, self.start) };
+            let two_pi = 2.0 * std::f64::consts::PI;
+            let mut mn = ends.0.min(ends.1);
+            let mut mx = ends.0.max(ends.1);
+            let k = ((lo - ph) / two_pi).ceil();
+            if ph + k * two_pi <= hi {
+                mx = centre + amp;
+            }
+            let k = ((lo - ph - std::f64::consts::PI) / two_pi).ceil();
+            if ph + std::f64::consts::PI + k * two_pi <= hi {
+                mn = centre - amp;
+            }
+            (mn, mx)
+        };
+        let (p0, p1) = (self.at(0.0), self.at(1.0));
+        (one(self.cx, self.rx * c, -self.ry * s, (p0.0, p1.0)), one(self.cy, self.rx * s, self.ry * c, (p0.1, p1.1)))
+    }
+    fn polyline_length(&self, n: usize) -> f64 {
+        let mut l = 0.0;
+        let mut prev = self.at(0.0);
+        for i in 1..=n {
+            let p = self.at(i as f64 / n as f64);
+            l += dist(prev, p);
+            prev = p;
+        }
+        l
+    }
+}
+
+struct Au<'a> {
+    st: &'a mut Stats,
+    name: &'static str,
+    worst: BTreeMap<String, (f64, String)>,
+    listed: BTreeMap<String, u32>,
+}
+
+impl<'a> Au<'a> {
+    fn inc(&mut self, k: &str) {
+        self.st.inc(&format!("audit_{}", k));
+    }
+    fn bad(&mut self, what: &str, input: String) {
+        if std::env::var("LVH_AUDIT_VERBOSE").is_ok() {
+            eprintln!("BAD\t{}\t{}\t{}", self.name, what, input);
+        }
+        // C13 speaks of the conversion between the two forms and of the Bezier sequences; the drift of the f32 flattening
+        // ITERATOR over hundreds of steps belongs to flattening (C09) and is recorded as an observation here (DESIGN 10.10)
+        if what.starts_with("the flattened() iterator does not end on the arc's end point") {
+            self.st.inc("observed outside the property's statement: the flattened() iterator does not end on the arc's end point");
+            return;
+        }
+        // known finding K21: end points closer together than the angles of the centre form can resolve - the difference of
+        // the two angles gets the sign of a rounding error and the correction by a full turn does the rest
+        let class = if what == "the sweep size does not follow the large-arc flag" || what == "the sweep direction does not follow the sweep flag" { Some("K21") } else { None };
+        if let Some(c) = class {
+            let k = self.listed.entry(what.to_string()).or_insert(0);
+            *k += 1;
+            if *k <= 4 {
+                self.st.fail(jobj(&[("what", jstr(&format!("arc audit ({}): {}", self.name, what))), ("input", jstr(&input)), ("class", jstr(c))]));
+            } else {
+                self.st.inc("audit_known_finding_cases_not_listed");
+            }
+            return;
+        }
+        // every failure is counted; the first ten of each kind are listed (so that no kind crowds the others out of the list)
+        let k = self.listed.entry(what.to_string()).or_insert(0);
+        *k += 1;
+        if *k <= 10 {
+            self.st.fail(jobj(&[("what", jstr(&format!("arc audit ({}): {}", self.name, what))), ("input", jstr(&input))]));
+        } else {
+            self.st.inc("direct_failures");
+            self.st.inc("direct_failures_unclassified");
+            self.st.inc("audit_failures_counted_but_not_listed");
+        }
+    }
+    fn worst(&mut self, key: &str, v: f64, label: &str) {
+        if !v.is_finite() {
+            return;
+        }
+        let e = self.worst.entry(key.to_string()).or_insert((0.0, String::new()));
+        if v > e.0 {
+            *e = (v, label.to_string());
+        }
+    }
+    fn finish(self) {
+        let verbose = std::env::var("LVH_AUDIT_VERBOSE").is_ok();
+        for (k, (v, l)) in &self.worst {
+            self.st.add(&format!("audit_worst_{}_{}", self.name, k), v.ceil() as u64);
+            if verbose {
+                eprintln!("worst {} {} = {} at {}", self.name, k, v, l);
+            }
+        }
+    }
+}
+
+fn dyadic(rng: &mut Rng) -> f64 {
+    rng.range(1, 63) as f64 / 64.0
+}
+
+fn mk_arc<S: Sc>(cx: f64, cy: f64, rx: f64, ry: f64, start: f64, sweep: f64, rot: f64) -> Arc<S> {
+    Arc { center: point(S::of64(cx), S::of64(cy)), radii: vector(S::of64(rx), S::of64(ry)), start_angle: Angle::radians(S::of64(start)), sweep_angle: Angle::radians(S::of64(sweep)), x_rotation: Angle::radians(S::of64(rot)) }
+}
+
+/// radii equal / different / ratio up to 50 / tiny (1e-3) / huge (1e4); sweeps of both signs, tiny, exact multiples of
+/// pi/4, up to and beyond a full turn, exactly zero; rotations and start angles of any size
+fn gen_centre<S: Sc>(rng: &mut Rng, it: usize) -> (Arc<S>, &'static str) {
+    let pi = std::f64::consts::PI;
+    let sgn = |rng: &mut Rng| if rng.chance(1, 2) { 1.0 } else { -1.0 };
+    let swap = |rng: &mut Rng, a: f64, b: f64| if rng.chance(1, 2) { (a, b) } else { (b, a) };
+    let (rx, ry, rcls) = match it % 6 {
+        0 => {
+            let r = 1.0 + rng.below(20) as f64;
+            (r, r, "circle")
+        }
+        1 => (1.0 + rng.below(20) as f64, 1.0 + rng.below(20) as f64, "ellipse"),
+        2 => {
+            let r = 0.5 * (1 + rng.below(4)) as f64;
+            let k = (2 + rng.below(49)) as f64;
+            let (a, b) = swap(rng, r * k, r);
+            (a, b, "eccentric")
+        }
+        3 => {
+            // 1e-3 .. 9e-3, one time in four 1e-5 .. 9e-5
+            let r = if rng.chance(1, 4) { 1e-5 } else { 1e-3 } * (1 + rng.below(9)) as f64;
+            let k = *rng.pick(&[1.0, 1.0, 2.0, 5.0]);
+            let (a, b) = swap(rng, r * k, r);
+            (a, b, "tiny")
+        }
+        4 => {
+            let r = 1e4 * (1 + rng.below(9)) as f64;
+            let k = *rng.pick(&[1.0, 1.0, 2.0, 50.0]);
+            let (a, b) = swap(rng, r, r / k);
+            (a, b, "huge")
+        }
+        _ => (0.5 + rng.unit_f64() * 30.0, 0.5 + rng.unit_f64() * 30.0, "ellipse"),
+    };
+    let sweep = match rng.below(12) {
+        0 | 1 => sgn(rng) * (0.1 + rng.unit_f64() * (2.0 * pi - 0.2)),
+        2 => sgn(rng) * rng.unit_f64() * pi,
+        3 => sgn(rng) * 1e-6 * (1 + rng.below(9)) as f64,
+        4 => sgn(rng) * (1 + rng.below(8)) as f64 * pi / 4.0,
+        5 | 6 => sgn(rng) * (2.0 * pi + 0.001 + rng.unit_f64() * (2.0 * pi - 0.002)),
+        7 => sgn(rng) * (2.0 * pi - 1e-3 * rng.unit_f64()),
+        8 => sgn(rng) * 2.0 * pi,
+        9 => sgn(rng) * (pi + rng.unit_f64() * pi),
+        10 => {
+            if rng.chance(1, 4) {
+                0.0
+            } else {
+                sgn(rng) * (pi + (rng.unit_f64() - 0.5) * 1e-6)
+            }
+        }
+        _ => (rng.unit_f64() - 0.5) * 4.0 * pi,
+    };
+    let start = match rng.below(4) {
+        0 => 0.0,
+        1 => rng.range(-4, 4) as f64 * pi / 2.0,
+        2 => (rng.unit_f64() - 0.5) * 4.0 * pi,
+        _ => sgn(rng) * (10.0 + rng.unit_f64() * 90.0),
+    };
+    let rot = match rng.below(5) {
+        0 => 0.0,
+        1 => rng.range(-8, 8) as f64 * pi / 2.0,
+        2 => (rng.unit_f64() - 0.5) * 2.0 * pi,
+        3 => sgn(rng) * (2.0 * pi + rng.unit_f64() * 14.0),
+        _ => rng.range(-12, 12) as f64 * 0.25,
+    };
+    let (cx, cy, cls) = if rcls == "tiny" {
+        if rng.chance(1, 2) {
+            (0.0, 0.0, rcls)
+        } else {
+            (rng.range(-8, 8) as f64 / 8.0, rng.range(-8, 8) as f64 / 8.0, rcls)
+        }
+    } else if rng.chance(1, 8) {
+        (rng.range(-10, 10) as f64 * 100.0, rng.range(-10, 10) as f64 * 100.0, if rcls == "huge" { "huge" } else { "far" })
+    } else if rng.chance(1, 4) {
+        (0.0, 0.0, rcls)
+    } else {
+        (rng.range(-10, 10) as f64, rng.range(-10, 10) as f64, rcls)
+    };
+    (mk_arc(cx, cy, rx, ry, start, sweep, rot), cls)
+}
+
+// ---------------------------------------------------------------------------------------------------- sample & co
+fn g_sample<S: Sc>(au: &mut Au, arc: &Arc<S>, r: &RefArc, rng: &mut Rng, label: &str) {
+    let me = S::ME;
+    let tol = r.pt_tol(me);
+    let atol = 4.0 * me * r.ang_mag() + 1e-300;
+    let vtol = 8.0 * me * r.rmax() * (2.0 + r.ang_mag());
+    let ts = [0.0, 1.0, 0.5, 0.25, dyadic(rng), rng.unit_f64()];
+    for &t0 in &ts {
+        let ts_ = S::of64(t0);
+        let t = ts_.to64();
+        au.inc("get_angle");
+        let ga = arc.get_angle(ts_).radians.to64();
+        if (ga - r.angle(t)).abs() > atol {
+            au.bad("get_angle(t) is not start_angle + t * sweep_angle", format!("{} t={}: {} expected {}", label, t, ga, r.angle(t)));
+        }
+        au.inc("sample");
+        let p = arc.sample(ts_);
+        let d = dist(p64(p), r.at(t));
+        au.worst("sample_error_in_tol_permille", 1000.0 * d / tol, label);
+        if !(d <= tol) {
+            au.bad("sample(t) is not the reference ellipse point", format!("{} t={}: {:?} expected {:?} (distance {}, allowed {})", label, t, p, r.at(t), d, tol));
+        }
+        au.inc("x_y");
+        if arc.x(ts_) != p.x || arc.y(ts_) != p.y {
+            au.bad("x(t) / y(t) are not the coordinates of sample(t)", format!("{} t={}", label, t));
+        }
+        au.inc("sample_tangent");
+        let tv = v64(arc.sample_tangent(ts_));
+        let want = r.d_angle(r.angle(t));
+        if !(dist(tv, want) <= vtol) {
+            au.bad("sample_tangent(t) is not the derivative of the reference ellipse with respect to the angle", format!("{} t={}: {:?} expected {:?}", label, t, tv, want));
+        }
+        au.inc("derivative");
+        let dv = v64(Segment::derivative(arc, ts_));
+        let wantd = (want.0 * r.sweep, want.1 * r.sweep);
+        if !(dist(dv, wantd) <= vtol * (1.0 + r.sweep.abs())) {
+            au.bad("Segment::derivative(t) is not the derivative of the reference with respect to t", format!("{} t={}: {:?} expected {:?}", label, t, dv, wantd));
+        }
+        // direction of motion for increasing t: with a negative sweep the derivative with respect to the angle points backwards
+        if r.sweep != 0.0 {
+            let motion = (want.0 * r.sweep.signum(), want.1 * r.sweep.signum());
+            let dot = motion.0 * tv.0 + motion.1 * tv.1;
+            if dot < 0.0 {
+                au.inc("sample_tangent_points_against_the_motion");
+            } else {
+                au.inc("sample_tangent_points_along_the_motion");
+            }
+            let cross = motion.0 * tv.1 - motion.1 * tv.0;
+            if !(cross.abs() <= vtol * r.rmax()) {
+                au.bad("sample_tangent(t) is not parallel to the direction of motion", format!("{} t={}", label, t));
+            }
+        }
+    }
+    au.inc("end_angle");
+    let ea = arc.end_angle().radians.to64();
+    if (ea - (r.start + r.sweep)).abs() > atol {
+        au.bad("end_angle() is not start_angle + sweep_angle", format!("{}: {}", label, ea));
+    }
+    au.inc("from_to");
+    if arc.from() != arc.sample(S::ZERO) || arc.to() != arc.sample(S::ONE) {
+        au.bad("from() / to() are not sample(0) / sample(1)", label.to_string());
+    }
+    if !(dist(p64(arc.from()), r.at_angle(r.start)) <= tol) || !(dist(p64(arc.to()), r.at_angle(r.start + r.sweep)) <= tol) {
+        au.bad("from() / to() are not the reference points at the start / end angle", format!("{}: {:?} {:?}", label, arc.from(), arc.to()));
+    }
+}
+
+// ---------------------------------------------------------------------------------------------------- split & co
+fn g_split<S: Sc>(au: &mut Au, arc: &Arc<S>, r: &RefArc, rng: &mut Rng, label: &str) {
+    let me = S::ME;
+    let tol = 3.0 * r.pt_tol(me);
+    let us = [0.0, 1.0, 0.5, dyadic(rng), rng.unit_f64()];
+    let near = |p: Point<S>, q: P2| dist(p64(p), q) <= tol;
+    for &t0 in &[0.0, 1.0, dyadic(rng), rng.unit_f64()] {
+        let ts_ = S::of64(t0);
+        let t = ts_.to64();
+        au.inc("split");
+        let (s0, s1) = arc.split(ts_);
+        au.inc("before_split");
+        au.inc("after_split");
+        if arc.before_split(ts_) != s0 || arc.after_split(ts_) != s1 {
+            au.bad("before_split / after_split are not the two halves of split", format!("{} t={}", label, t));
+        }
+        if Segment::split(arc, ts_) != (s0, s1) || Segment::before_split(arc, ts_) != s0 || Segment::after_split(arc, ts_) != s1 {
+            au.bad("Segment::split / before_split / after_split differ from the inherent methods", format!("{} t={}", label, t));
+        }
+        // end points of the pieces
+        if s0.from() != arc.from() {
+            au.bad("the first piece of split does not start exactly on the arc's start point", format!("{} t={}", label, t));
+        }
+        if s0.to() != s1.from() {
+            au.bad("the two pieces of split do not meet exactly", format!("{} t={}: {:?} / {:?}", label, t, s0.to(), s1.from()));
+        }
+        let d = dist(p64(s1.to()), p64(arc.to()));
+        if s1.to() == arc.to() {
+            au.inc("split_second_piece_ends_bit_exactly_on_to");
+        } else {
+            au.inc("split_second_piece_end_differs_in_the_last_bits");
+        }
+        au.worst("split_end_distance_in_tol_permille", 1000.0 * d / tol, label);
+        if !(d <= tol) {
+            au.bad("the second piece of split does not end on the arc's end point", format!("{} t={}: {:?} vs {:?}", label, t, s1.to(), arc.to()));
+        }
+        for &u0 in &us {
+            let us_ = S::of64(u0);
+            let u = us_.to64();
+            if !near(s0.sample(us_), r.at(t * u)) {
+                au.bad("first piece of split: parameter u is not t*u of the arc", format!("{} t={} u={}: {:?} expected {:?}", label, t, u, s0.sample(us_), r.at(t * u)));
+            }
+            if !near(s1.sample(us_), r.at(t + (1.0 - t) * u)) {
+                au.bad("second piece of split: parameter u is not t+(1-t)*u of the arc", format!("{} t={} u={}: {:?} expected {:?}", label, t, u, s1.sample(us_), r.at(t + (1.0 - t) * u)));
+            }
+        }
+    }
+    // sub-range
+    for k in 0..3 {
+        let (mut a, mut b) = (dyadic(rng), dyadic(rng));
+        if k == 0 {
+            a = 0.0;
+            b = 1.0;
+        } else if k == 1 && rng.chance(1, 2) {
+            a = 0.0;
+        }
+        if a > b {
+            std::mem::swap(&mut a, &mut b);
+        }
+        au.inc("split_range");
+        let sr = arc.split_range(S::of64(a)..S::of64(b));
+        if Segment::split_range(arc, S::of64(a)..S::of64(b)) != sr {
+            au.bad("Segment::split_range differs from the inherent method", format!("{} {}..{}", label, a, b));
+        }
+        for &u0 in &us {
+            let us_ = S::of64(u0);
+            let u = us_.to64();
+            if !near(sr.sample(us_), r.at(a + (b - a) * u)) {
+                au.bad("split_range(a..b): parameter u is not a+(b-a)*u of the arc", format!("{} {}..{} u={}: {:?} expected {:?}", label, a, b, u, sr.sample(us_), r.at(a + (b - a) * u)));
+            }
+        }
+        if !near(sr.from(), r.at(a)) || !near(sr.to(), r.at(b)) {
+            au.bad("split_range(a..b) does not start / end on the arc's points at a / b", format!("{} {}..{}", label, a, b));
+        }
+        if a == 0.0 && sr.from() != arc.from() {
+            au.bad("split_range(0..b) does not start exactly on the arc's start point", format!("{} {}..{}", label, a, b));
+        }
+    }
+    // flip
+    au.inc("flip");
+    let f = arc.flip();
+    if Segment::flip(arc) != f {
+        au.bad("Segment::flip differs from the inherent method", label.to_string());
+    }
+    if f.from() != arc.to() {
+        au.bad("flip() does not start exactly on the arc's end point", format!("{}: {:?} vs {:?}", label, f.from(), arc.to()));
+    }
+    if f.to() == arc.from() {
+        au.inc("flip_ends_bit_exactly_on_from");
+    } else {
+        au.inc("flip_end_differs_in_the_last_bits");
+    }
+    if !near(f.to(), p64(arc.from())) {
+        au.bad("flip() does not end on the arc's start point", format!("{}: {:?} vs {:?}", label, f.to(), arc.from()));
+    }
+    for &u0 in &us {
+        let us_ = S::of64(u0);
+        let u = us_.to64();
+        if !near(f.sample(us_), r.at(1.0 - u)) {
+            au.bad("flip(): parameter u is not 1-u of the arc", format!("{} u={}: {:?} expected {:?}", label, u, f.sample(us_), r.at(1.0 - u)));
+        }
+    }
+    if f.center != arc.center || f.radii != arc.radii || f.x_rotation != arc.x_rotation {
+        au.bad("flip() changes the ellipse", label.to_string());
+    }
+}
+
+// ---------------------------------------------------------------------------------------------------- Beziers
+/// One curve of an approximation: its end points, 15 interior samples and the parameter range it claims (if any).
+struct Piece {
+    from: P2,
+    to: P2,
+    inner: Vec<P2>,
+    t: Option<(f64, f64)>,
+}
+
+const QUAD_ALLOWED: f64 = 0.012; // what the checks above allow: fraction of the larger radius
+const CUBIC_ALLOWED: f64 = 0.004;
+
+fn check_pieces(au: &mut Au, kind: &str, allowed: f64, pieces: &[Piece], r: &RefArc, me: f64, cls: &str, label: &str, from: P2, to: P2, from_exact: bool, to_exact: bool) {
+    let two_pi = 2.0 * std::f64::consts::PI;
+    let tol = r.pt_tol(me);
+    if r.sweep == 0.0 {
+        // nothing to approximate: lyon emits no curve at all (counted, not flagged)
+        if pieces.is_empty() {
+            au.inc(&format!("{}_zero_sweep_emits_nothing", kind));
+        } else {
+            au.inc(&format!("{}_zero_sweep_emits_curves", kind));
+        }
+        return;
+    }
+    if pieces.is_empty() {
+        au.bad(&format!("no {} Bezier is produced for an arc with a non-zero sweep", kind), label.to_string());
+        return;
+    }
+    let n = pieces.len();
+    let clamped = r.sweep.abs() > two_pi;
+    let eff = r.sweep.signum() * r.sweep.abs().min(two_pi);
+    // start on the arc's start point: how exactly
+    let d0 = dist(pieces[0].from, from);
+    au.worst(&format!("{}_first_from_distance_in_tol_permille", kind), 1000.0 * d0 / tol, label);
+    if from_exact {
+        au.inc(&format!("{}_first_from_bit_exact", kind));
+    } else {
+        au.inc(&format!("{}_first_from_not_bit_exact", kind));
+        au.bad(&format!("the {} sequence does not start exactly on the arc's start point", kind), format!("{}: {:?} vs {:?}", label, pieces[0].from, from));
+    }
+    if clamped {
+        // |sweep| beyond a full turn: the conversion clamps the sweep to one turn (counted, not flagged; see the report):
+        // the curves go once around the ellipse and come back to the start point
+        au.inc(&format!("{}_sweep_beyond_full_turn_clamped_to_one_turn", kind));
+        let back = r.at_angle(r.start + eff);
+        if !(dist(pieces[n - 1].to, back) <= 3.0 * tol) {
+            au.bad(&format!("the {} sequence of an arc sweeping more than a full turn does not close after one turn", kind), label.to_string());
+        }
+    } else {
+        let d1 = dist(pieces[n - 1].to, to);
+        au.worst(&format!("{}_last_to_distance_in_tol_permille", kind), 1000.0 * d1 / tol, label);
+        if to_exact {
+            au.inc(&format!("{}_last_to_bit_exact", kind));
+        } else {
+            au.inc(&format!("{}_last_to_differs_in_the_last_bits", kind));
+        }
+        if !(d1 <= 2.0 * tol) {
+            au.bad(&format!("the {} sequence does not end on the arc's end point", kind), format!("{}: {:?} vs {:?} (distance {}, allowed {})", label, pieces[n - 1].to, to, d1, 2.0 * tol));
+        }
+    }
+    // parameter ranges: from 0 to exactly 1, chained, increasing
+    if pieces[0].t.is_some() {
+        let ts: Vec<(f64, f64)> = pieces.iter().map(|p| p.t.unwrap()).collect();
+        if ts[0].0 != 0.0 || ts[n - 1].1 != 1.0 {
+            au.bad(&format!("the {} parameter ranges do not run from 0 to exactly 1", kind), format!("{}: {:?}", label, ts));
+        }
+        if ts.windows(2).any(|w| w[0].1 != w[1].0) || ts.iter().any(|x| !(x.0 < x.1)) {
+            au.bad(&format!("the {} parameter ranges are not chained / increasing", kind), format!("{}: {:?}", label, ts));
+        }
+    }
+    let mut worst = 0.0f64;
+    let mut worst_out = 0.0f64;
+    let step = eff / n as f64;
+    for (i, p) in pieces.iter().enumerate() {
+        // each curve covers its share of the parameter range, in order: its end points are the arc's points there
+        let (t0, t1) = p.t.unwrap_or((i as f64 / n as f64, (i + 1) as f64 / n as f64));
+        let (a0, a1) = (r.start + eff * t0, r.start + eff * t1);
+        let slack = 2.0 * tol + r.rmax() * eff.abs() * 8.0 * me * n as f64;
+        if !(dist(p.from, r.at_angle(a0)) <= slack) || !(dist(p.to, r.at_angle(a1)) <= slack) {
+            au.bad(&format!("a {} curve does not join the arc's points at the ends of its parameter range", kind), format!("{} curve {} of {} range {}..{}: {:?} -> {:?} expected {:?} -> {:?}", label, i, n, t0, t1, p.from, p.to, r.at_angle(a0), r.at_angle(a1)));
+        }
+        let amid = 0.5 * (a0 + a1);
+        for q in p.inner.iter().chain([p.from, p.to].iter()) {
+            worst = worst.max(r.ellipse_dev(*q));
+            // how far beyond the ends of its share of the ellipse the curve goes, in units of its angular length
+            let u = r.unit(*q);
+            let off = ang_diff(u.1.atan2(u.0), amid).abs() - 0.5 * (a1 - a0).abs();
+            worst_out = worst_out.max(off / step.abs());
+        }
+    }
+    let ratio = worst / r.rmax();
+    au.worst(&format!("{}_deviation_ppm_of_rmax_{}", kind, cls), 1e6 * ratio, label);
+    let noise = 4.0 * tol / r.rmax();
+    if !(ratio <= allowed + noise) {
+        au.bad(&format!("the {} approximation strays from the ellipse by more than {} of the larger radius [{}]", kind, allowed, cls), format!("{}: worst deviation {} = {} of the radius {} ({} curves)", label, worst, ratio, r.rmax(), n));
+    }
+    // each curve stays on the part of the ellipse between its end points (a point that the scalar type cannot tell from an
+    // end point counts as being there)
+    let noise_a = 4.0 * tol / r.rmin() / step.abs();
+    au.worst(&format!("{}_overshoot_permille_of_step", kind), 1000.0 * (worst_out - noise_a).max(0.0), label);
+    if !(worst_out <= 0.02 + noise_a) {
+        au.bad(&format!("a {} curve leaves the part of the ellipse between its end points [{}]", kind, cls), format!("{}: it goes {} times its own angular length ({}) beyond one of them", label, worst_out, step.abs()));
+    }
+}
+
+fn g_bezier<S: Sc>(au: &mut Au, arc: &Arc<S>, r: &RefArc, cls: &str, label: &str) {
+    let mut quads_t: Vec<(QuadraticBezierSegment<S>, Range<S>)> = Vec::new();
+    arc.for_each_quadratic_bezier_with_t(&mut |q: &QuadraticBezierSegment<S>, t: Range<S>| {
+        if quads_t.len() < 100_000 {
+            quads_t.push((*q, t))
+        }
+    });
+    let mut quads: Vec<QuadraticBezierSegment<S>> = Vec::new();
+    arc.for_each_quadratic_bezier(&mut |q: &QuadraticBezierSegment<S>| {
+        if quads.len() < 100_000 {
+            quads.push(*q)
+        }
+    });
+    let mut cubics: Vec<CubicBezierSegment<S>> = Vec::new();
+    arc.for_each_cubic_bezier(&mut |c: &CubicBezierSegment<S>| {
+        if cubics.len() < 100_000 {
+            cubics.push(*c)
+        }
+    });
+    au.inc("for_each_quadratic_bezier");
+    au.inc("for_each_quadratic_bezier_with_t");
+    au.inc("for_each_cubic_bezier");
+    if quads.len() != quads_t.len() || quads.iter().zip(quads_t.iter()).any(|(a, b)| *a != b.0) {
+        au.bad("for_each_quadratic_bezier and for_each_quadratic_bezier_with_t produce different curves", label.to_string());
+    }
+    // connected: exactly
+    if quads_t.windows(2).any(|w| w[0].0.to != w[1].0.from) {
+        au.bad("the quadratic sequence is not connected", label.to_string());
+    }
+    if cubics.windows(2).any(|w| w[0].to != w[1].from) {
+        au.bad("the cubic sequence is not connected", label.to_string());
+    }
+    let k = |j: usize| S::of64(j as f64 / 16.0);
+    let qp: Vec<Piece> = quads_t.iter().map(|(q, t)| Piece { from: p64(q.from), to: p64(q.to), inner: (1..16).map(|j| p64(q.sample(k(j)))).collect(), t: Some((t.start.to64(), t.end.to64())) }).collect();
+    let cp: Vec<Piece> = cubics.iter().map(|c| Piece { from: p64(c.from), to: p64(c.to), inner: (1..16).map(|j| p64(c.sample(k(j)))).collect(), t: None }).collect();
+    let (from, to) = (arc.from(), arc.to());
+    check_pieces(au, "quadratic", QUAD_ALLOWED, &qp, r, S::ME, cls, label, p64(from), p64(to), quads.first().map_or(true, |q| q.from == from), quads.last().map_or(true, |q| q.to == to));
+    check_pieces(au, "cubic", CUBIC_ALLOWED, &cp, r, S::ME, cls, label, p64(from), p64(to), cubics.first().map_or(true, |q| q.from == from), cubics.last().map_or(true, |q| q.to == to));
+}
+
+// ---------------------------------------------------------------------------------------------------- flattening
+fn g_flatten<S: Sc>(au: &mut Au, arc: &Arc<S>, r: &RefArc, rng: &mut Rng, label: &str) {
+    let me = S::ME;
+    let rel = *rng.pick(&[0.1, 0.01, 0.01, 1e-3, 1e-3, 1e-5]);
+    let tolerance = S::of64(r.rmax() * rel);
+    let tl = tolerance.to64();
+    let label = format!("{} tolerance {}", label, tl);
+    let cap = 1_000_000;
+    let mut segs: Vec<LineSegment<S>> = Vec::new();
+    arc.for_each_flattened(tolerance, &mut |s: &LineSegment<S>| {
+        if segs.len() < cap {
+            segs.push(*s)
+        }
+    });
+    let mut segs_t: Vec<(LineSegment<S>, Range<S>)> = Vec::new();
+    arc.for_each_flattened_with_t(tolerance, &mut |s: &LineSegment<S>, t: Range<S>| {
+        if segs_t.len() < cap {
+            segs_t.push((*s, t))
+        }
+    });
+    let pts: Vec<Point<S>> = arc.flattened(tolerance).take(cap).collect();
+    let mut segs_tr: Vec<(LineSegment<S>, Range<S>)> = Vec::new();
+    Segment::for_each_flattened_with_t(arc, tolerance, &mut |s: &LineSegment<S>, t: Range<S>| {
+        if segs_tr.len() < cap {
+            segs_tr.push((*s, t))
+        }
+    });
+    au.inc("for_each_flattened");
+    au.inc("for_each_flattened_with_t");
+    au.inc("flattened");
+    let n = segs.len();
+    if n == 0 || n >= cap {
+        au.bad("for_each_flattened produced no segment / more than a million segments", label.clone());
+        return;
+    }
+    if segs_t.len() != n || pts.len() != n || segs_tr.len() != n {
+        au.bad("for_each_flattened, for_each_flattened_with_t, the Segment trait and the flattened() iterator do not produce the same number of points", format!("{}: {} / {} / {} / {} segments", label, n, segs_t.len(), segs_tr.len(), pts.len()));
+        return;
+    }
+    if segs_tr != segs_t {
+        au.bad("Segment::for_each_flattened_with_t differs from the inherent method", label.clone());
+    }
+    if (0..n).any(|i| segs[i] != segs_t[i].0) {
+        au.bad("for_each_flattened and for_each_flattened_with_t do not produce the same points", label.clone());
+    }
+    // the iterator: the same points; its last point is the arc's end point
+    if (0..n - 1).any(|i| pts[i] != segs[i].to) {
+        au.bad("the flattened() iterator and for_each_flattened do not produce the same points", label.clone());
+    }
+    if pts[n - 1] == arc.to() {
+        au.inc("flattened_iterator_ends_bit_exactly_on_to");
+    } else {
+        au.inc("flattened_iterator_end_differs_in_the_last_bits");
+    }
+    {
+        // every step of the iterator replaces the arc by the rest of it, which rounds the start angle: its last point is the
+        // end of the last remainder, not `to()` itself; it must still be the arc's end point as far as the flattening tolerance
+        // and the resolution of the scalar type can tell
+        let d = dist(p64(pts[n - 1]), p64(arc.to()));
+        let allowed = tl + 2.0 * r.pt_tol(me);
+        if tl > 100.0 * r.pt_tol(me) {
+            au.worst("flattened_iterator_end_distance_permille_of_tolerance", 1000.0 * d / tl, &label);
+        }
+        au.worst("flattened_iterator_end_distance_permille_of_allowed", 1000.0 * d / allowed, &label);
+        if !(d <= allowed) {
+            au.bad("the flattened() iterator does not end on the arc's end point", format!("{}: {:?} vs {:?} after {} steps: {} apart, the tolerance and the resolution allow {}", label, pts[n - 1], arc.to(), n, d, allowed));
+        }
+    }
+    if segs[0].from != arc.from() || segs[n - 1].to != arc.to() {
+        au.bad("the flattened arc does not start / end exactly on the arc's end points", label.clone());
+    }
+    if segs.windows(2).any(|w| w[0].to != w[1].from) {
+        au.bad("the flattened arc is not connected", label.clone());
+    }
+    let ts: Vec<(f64, f64)> = segs_t.iter().map(|x| (x.1.start.to64(), x.1.end.to64())).collect();
+    if ts[0].0 != 0.0 || ts[n - 1].1 != 1.0 {
+        au.bad("the parameter ranges of the flattened arc do not run from 0 to exactly 1", label.clone());
+    }
+    if ts.windows(2).any(|w| w[0].1 != w[1].0) || ts.iter().any(|x| !(x.0 <= x.1)) || (n > 1 && ts.iter().take(n - 1).any(|x| !(x.0 < x.1))) {
+        au.bad("the parameter ranges of the flattened arc are not chained / increasing", format!("{}: {:?}", label, &ts[..n.min(6)]));
+    }
+    // the points are the arc's points at the reported parameters (the parameters and the points are produced by two
+    // different recurrences, each step of which rounds: the allowance grows with the number of steps)
+    let tol = r.pt_tol(me) + r.rmax() * r.ang_mag() * 4.0 * me * n as f64;
+    let mut worst = 0.0f64;
+    for (i, s) in segs.iter().enumerate() {
+        worst = worst.max(dist(p64(s.to), r.at(ts[i].1)));
+    }
+    au.worst("flattened_point_vs_parameter_in_tol_permille", 1000.0 * worst / tol, &label);
+    if !(worst <= tol) {
+        au.bad("a point of the flattened arc is not the arc's point at the reported parameter", format!("{}: off by {} (allowed {})", label, worst, tol));
+    }
+    // deviation: circular arcs must be within the tolerance (sagitta of every chord); eccentric ellipses are only counted (K10)
+    let circular = r.rx == r.ry;
+    let mut dev = 0.0f64;
+    for (i, s) in segs.iter().enumerate() {
+        let (a, b) = (p64(s.from), p64(s.to));
+        if circular {
+            let mid = (0.5 * (a.0 + b.0), 0.5 * (a.1 + b.1));
+            dev = dev.max(r.rx - dist(mid, (r.cx, r.cy)));
+        } else {
+            for j in 0..=8 {
+                let q = r.at(ts[i].0 + (ts[i].1 - ts[i].0) * j as f64 / 8.0);
+                dev = dev.max(seg_dist(q, a, b));
+            }
+        }
+    }
+    if circular {
+        au.inc("flattened_circular_arcs");
+        if tl > 100.0 * tol {
+            au.worst("flattened_circle_deviation_permille_of_tolerance", 1000.0 * dev / tl, &label);
+        }
+        if !(dev <= tl * 1.001 + tol) {
+            au.bad("the flattened circular arc is farther from the arc than the tolerance", format!("{}: {} ({} segments)", label, dev, n));
+        }
+    } else {
+        au.inc("flattened_elliptic_arcs");
+        if tl > 100.0 * tol {
+            au.worst("flattened_ellipse_deviation_permille_of_tolerance", 1000.0 * dev / tl, &label);
+        }
+        if dev > tl * 1.001 + tol {
+            au.inc("flattened_elliptic_arcs_beyond_tolerance_K10_not_flagged");
+        }
+    }
+}
+
+// ---------------------------------------------------------------------------------------------------- boxes
+fn g_box<S: Sc>(au: &mut Au, arc: &Arc<S>, r: &RefArc, label: &str) {
+    let me = S::ME;
+    let tol = r.pt_tol(me);
+    let btol = 4.0 * tol;
+    let ((lx, hx), (ly, hy)) = r.ranges();
+    au.inc("bounding_box");
+    let b = arc.bounding_box();
+    let (bmin, bmax) = (p64(b.min), p64(b.max));
+    // contains every point of the arc, is touched on all four sides: it is the reference range
+    let e = [(bmin.0 - lx).abs(), (bmax.0 - hx).abs(), (bmin.1 - ly).abs(), (bmax.1 - hy).abs()];
+    let w = e.iter().cloned().fold(0.0, f64::max);
+    au.worst("bounding_box_error_in_tol_permille", 1000.0 * w / tol, label);
+    if bmin.0 > lx + btol || bmax.0 < hx - btol || bmin.1 > ly + btol || bmax.1 < hy - btol {
+        au.bad("bounding_box does not contain the arc", format!("{}: {:?} but the arc spans x {}..{} y {}..{}", label, b, lx, hx, ly, hy));
+    } else if !(w <= btol) {
+        au.bad("bounding_box is not touched by the arc on all four sides", format!("{}: {:?} but the arc spans x {}..{} y {}..{}", label, b, lx, hx, ly, hy));
+    }
+    // ... and every sample
+    for i in 0..=64 {
+        let p = r.at(i as f64 / 64.0);
+        if p.0 < bmin.0 - btol || p.0 > bmax.0 + btol || p.1 < bmin.1 - btol || p.1 > bmax.1 + btol {
+            au.bad("bounding_box does not contain a sample of the arc", format!("{}: {:?} sample {}/64 {:?}", label, b, i, p));
+            break;
+        }
+    }
+    au.inc("fast_bounding_box");
+    let f = arc.fast_bounding_box();
+    let (fmin, fmax) = (p64(f.min), p64(f.max));
+    if fmin.0 > lx + tol || fmax.0 < hx - tol || fmin.1 > ly + tol || fmax.1 < hy - tol {
+        au.bad("fast_bounding_box does not contain the arc", format!("{}: {:?} but the arc spans x {}..{} y {}..{}", label, f, lx, hx, ly, hy));
+    }
+    if fmin.0 > bmin.0 + tol || fmax.0 < bmax.0 - tol || fmin.1 > bmin.1 + tol || fmax.1 < bmax.1 - tol {
+        au.bad("fast_bounding_box does not contain bounding_box", format!("{}: {:?} vs {:?}", label, f, b));
+    }
+    // how conservative: it is the box of the rotated rectangle [-rx, rx] x [-ry, ry] (measured, not required)
+    {
+        let (c, s) = (r.rot.cos().abs(), r.rot.sin().abs());
+        let (hw, hh) = (r.rx * c + r.ry * s, r.rx * s + r.ry * c);
+        let wf = [(fmin.0 - (r.cx - hw)).abs(), (fmax.0 - (r.cx + hw)).abs(), (fmin.1 - (r.cy - hh)).abs(), (fmax.1 - (r.cy + hh)).abs()].iter().cloned().fold(0.0, f64::max);
+        au.worst("fast_bounding_box_vs_rotated_rectangle_in_tol_permille", 1000.0 * wf / tol, label);
+    }
+    au.inc("bounding_range_x");
+    au.inc("bounding_range_y");
+    au.inc("fast_bounding_range_x");
+    au.inc("fast_bounding_range_y");
+    if arc.bounding_range_x() != (b.min.x, b.max.x) || arc.bounding_range_y() != (b.min.y, b.max.y) {
+        au.bad("bounding_range_x / y are not the sides of bounding_box", label.to_string());
+    }
+    if arc.fast_bounding_range_x() != (f.min.x, f.max.x) || arc.fast_bounding_range_y() != (f.min.y, f.max.y) {
+        au.bad("fast_bounding_range_x / y are not the sides of fast_bounding_box", label.to_string());
+    }
+    // extremum parameters: within [0, 1], and the coordinate's derivative vanishes there
+    let vtol = 16.0 * me * (7.0 + r.ang_mag()) * r.rmax();
+    for is_x in [true, false] {
+        let mut ts: Vec<S> = Vec::new();
+        if is_x {
+            au.inc("for_each_local_x_extremum_t");
+            arc.for_each_local_x_extremum_t(&mut |t: S| ts.push(t));
+        } else {
+            au.inc("for_each_local_y_extremum_t");
+            arc.for_each_local_y_extremum_t(&mut |t: S| ts.push(t));
+        }
+        for t in ts {
+            let t = t.to64();
+            if !(0.0..=1.0).contains(&t) {
+                au.bad("an extremum parameter is outside [0, 1]", format!("{}: {} ({})", label, t, if is_x { "x" } else { "y" }));
+                continue;
+            }
+            if t == 0.0 || t == 1.0 {
+                au.inc("extremum_parameter_exactly_at_an_end");
+            }
+            let d = r.d_angle(r.angle(t));
+            let dc = if is_x { d.0 } else { d.1 };
+            au.worst("extremum_derivative_in_tol_permille", 1000.0 * dc.abs() / vtol, label);
+            if !(dc.abs() <= vtol) {
+                au.bad("the coordinate's derivative does not vanish at a reported extremum parameter", format!("{}: t={} ({}) derivative {} (allowed {})", label, t, if is_x { "x" } else { "y" }, dc, vtol));
+            }
+        }
+    }
+}
+
+// ---------------------------------------------------------------------------------------------------- length
+fn g_length<S: Sc>(au: &mut Au, arc: &Arc<S>, r: &RefArc, rng: &mut Rng, label: &str) {
+    let me = S::ME;
+    let rel = *rng.pick(&[0.01, 1e-3]);
+    let tolerance = S::of64(r.rmax() * rel);
+    let tl = tolerance.to64();
+    au.inc("approximate_length");
+    let len = arc.approximate_length(tolerance).to64();
+    if Segment::approximate_length(arc, tolerance).to64() != len {
+        au.bad("Segment::approximate_length differs from the inherent method", label.to_string());
+    }
+    let want = r.polyline_length(4096);
+    let nseg = r.sweep.abs() / (2.0 * (1.0 - rel).acos()) + 3.0;
+    let noise = nseg * (r.pt_tol(me) + r.rmax() * r.sweep.abs() * 8.0 * me * nseg);
+    let label = format!("{} tolerance {}", label, tl);
+    // an inscribed polyline is never longer than the curve
+    if !(len <= want * (1.0 + 1e-6) + noise) {
+        au.bad("approximate_length is longer than the arc", format!("{}: {} but the arc is {} long", label, len, want));
+    }
+    let circular = r.rx == r.ry;
+    // chords of sagitta `tolerance` on a circle are shorter than their arcs by tolerance / (3 r), relatively
+    let deficit = 1.05 * rel / 3.0;
+    if circular {
+        if want * deficit > 100.0 * noise {
+            au.worst("length_deficit_permille_of_allowed", 1000.0 * ((want - len) / want) / deficit, &label);
+        }
+        if !(len >= want * (1.0 - deficit) - noise) {
+            au.bad("approximate_length of a circular arc is shorter than what the tolerance allows", format!("{}: {} but the arc is {} long", label, len, want));
+        }
+    } else if len < want * (1.0 - deficit) - noise {
+        au.inc("length_of_elliptic_arcs_short_by_more_than_the_circle_bound_K10_not_flagged");
+    }
+    let t = S::of64(dyadic(rng));
+    let parts = arc.before_split(t).approximate_length(tolerance).to64() + arc.after_split(t).approximate_length(tolerance).to64();
+    if circular {
+        if !((parts - len).abs() <= deficit * want + noise) {
+            au.bad("the lengths of the two pieces of a split circular arc do not add up to the length of the whole", format!("{} t={}: {} vs {}", label, t, parts, len));
+        }
+    } else {
+        if (parts - len).abs() > deficit * want + noise {
+            au.inc("length_of_elliptic_arcs_not_additive_within_the_circle_bound_K10_not_flagged");
+        }
+        if !(parts <= want * (1.0 + 1e-6) + 2.0 * noise) {
+            au.bad("the lengths of the two pieces of a split arc add up to more than the length of the arc", format!("{} t={}: {} vs {}", label, t, parts, want));
+        }
+    }
+}
+
+// ---------------------------------------------------------------------------------------------------- to_svg_arc and back
+fn g_to_svg<S: Sc>(au: &mut Au, arc: &Arc<S>, r: &RefArc, label: &str) {
+    let me = S::ME;
+    let pi = std::f64::consts::PI;
+    au.inc("to_svg_arc");
+    let sa = arc.to_svg_arc();
+    if sa.from != arc.from() || sa.to != arc.to() || sa.radii != arc.radii || sa.x_rotation != arc.x_rotation {
+        au.bad("to_svg_arc does not keep the end points / radii / rotation", format!("{} -> {:?}", label, sa));
+    }
+    // flags: direction and size of the sweep
+    if r.sweep != 0.0 && sa.flags.sweep != (r.sweep > 0.0) {
+        au.bad("to_svg_arc: the sweep flag is not the direction of the sweep", format!("{} -> {:?}", label, sa.flags));
+    }
+    if (r.sweep.abs() - pi).abs() > 4.0 * me * pi && sa.flags.large_arc != (r.sweep.abs() > pi) {
+        au.bad("to_svg_arc: the large-arc flag is not whether the sweep exceeds a half turn", format!("{} -> {:?}", label, sa.flags));
+    }
+    if sa.is_straight_line() {
+        // from == to bit for bit (sweep 0 or a whole number of turns): nothing to convert back (to_arc is documented to refuse)
+        au.inc("to_svg_arc_gives_coincident_end_points");
+        return;
+    }
+    let s = r.sweep.abs();
+    if s >= 2.0 * pi {
+        au.inc("to_svg_arc_of_a_sweep_of_a_full_turn_or_more_not_converted_back");
+        return;
+    }
+    au.inc("to_svg_arc_then_to_arc");
+    let back = sa.to_arc();
+    let rb = RefArc::of(&back);
+    // conditioning of the end point form: the centre is found from a square root of 1 - rf which loses half of the digits
+    // when the chord is a diameter (sweep ~ pi), and from the direction of the chord which is lost when the end points
+    // nearly coincide (sweep ~ 0 or ~ 2 pi); eccentricity multiplies both
+    let ratio = r.rmax() / r.rmin();
+    let scale = r.cx.abs() + r.cy.abs() + r.rmax() * (2.0 + r.ang_mag());
+    let near_pi = (s - pi).abs() < 0.05;
+    let near_0 = s.min(2.0 * pi - s);
+    let (d0, d1) = (dist(p64(back.from()), p64(arc.from())), dist(p64(back.to()), p64(arc.to())));
+    au.worst("round_trip_end_point_error_in_units_of_ME_scale", d0.max(d1) / (me * scale), label);
+    if !(d0.max(d1) <= 64.0 * me * scale) {
+        au.bad("to_svg_arc then to_arc: the end points moved", format!("{} -> {:?} -> {:?}: {:?} {:?} vs {:?} {:?}", label, sa, back, back.from(), back.to(), arc.from(), arc.to()));
+    }
+    // (radii that just fit are scaled up when rounding makes the chord look too long: by what the coordinates can resolve)
+    let rtol = 64.0 * me * ratio * ratio * (1.0 + (r.cx.abs() + r.cy.abs()) / r.rmin());
+    if back.radii != arc.radii && !((rb.rx / r.rx - 1.0).abs() <= rtol && (rb.ry / r.ry - 1.0).abs() <= rtol) {
+        au.bad("to_svg_arc then to_arc: the radii changed", format!("{} -> {:?} -> {:?}", label, sa, back));
+    }
+    if near_0 < 0.05 {
+        au.inc("round_trip_nearly_coincident_end_points_only_end_points_compared");
+        return;
+    }
+    let mut w = 0.0f64;
+    for i in 0..=8 {
+        let t = S::of64(i as f64 / 8.0);
+        w = w.max(dist(p64(back.sample(t)), r.at(t.to64())));
+    }
+    let bucket = if near_pi { "half_turn" } else { "regular" };
+    au.worst(&format!("round_trip_{}_error_in_units_of_ME_scale_ratio", bucket), w / (me * scale * ratio), label);
+    let allowed = if near_pi { me.sqrt() * scale * ratio * 8.0 } else { 256.0 * me * scale * ratio / near_0.min(1.0) };
+    if !(w <= allowed) {
+        au.bad("to_svg_arc then to_arc does not give the same points at the same parameters", format!("{} -> {:?} -> {:?}: off by {} (allowed {})", label, sa, back, w, allowed));
+    }
+}
+
+// ---------------------------------------------------------------------------------------------------- cast, circle, flags
+fn g_misc<S: Sc>(au: &mut Au, arc: &Arc<S>, r: &RefArc, label: &str) {
+    au.inc("cast");
+    let a64 = arc.cast::<f64>();
+    let r64 = RefArc::of(&a64);
+    if (r64.cx, r64.cy, r64.rx, r64.ry, r64.start, r64.sweep, r64.rot) != (r.cx, r.cy, r.rx, r.ry, r.start, r.sweep, r.rot) {
+        au.bad("cast::<f64>() changes a field", format!("{} -> {:?}", label, a64));
+    }
+    let a32 = arc.cast::<f32>();
+    if (a32.center.x, a32.center.y, a32.radii.x, a32.radii.y, a32.start_angle.radians, a32.sweep_angle.radians, a32.x_rotation.radians) != (r.cx as f32, r.cy as f32, r.rx as f32, r.ry as f32, r.start as f32, r.sweep as f32, r.rot as f32) {
+        au.bad("cast::<f32>() is not the rounding of every field", format!("{} -> {:?}", label, a32));
+    }
+    if arc.cast::<S>() != *arc {
+        au.bad("cast to the same scalar type changes the arc", label.to_string());
+    }
+    au.inc("circle");
+    let c = Arc::circle(arc.center, arc.radii.x);
+    let rc = RefArc::of(&c);
+    let want = RefArc { cx: r.cx, cy: r.cy, rx: r.rx, ry: r.rx, start: 0.0, sweep: 2.0 * S::PI().to64(), rot: 0.0 };
+    if (rc.cx, rc.cy, rc.rx, rc.ry, rc.start, rc.rot) != (want.cx, want.cy, want.rx, want.ry, 0.0, 0.0) || (rc.sweep - 2.0 * std::f64::consts::PI).abs() > 8.0 * S::ME {
+        au.bad("Arc::circle is not the full circle of the given centre and radius, starting at angle 0", format!("{} -> {:?}", label, c));
+    }
+    let tol = rc.pt_tol(S::ME);
+    for i in 0..=16 {
+        let t = S::of64(i as f64 / 16.0);
+        let p = p64(c.sample(t));
+        let a = 2.0 * std::f64::consts::PI * i as f64 / 16.0;
+        let q = (r.cx + r.rx * a.cos(), r.cy + r.rx * a.sin());
+        if !(dist(p, q) <= tol) {
+            au.bad("Arc::circle: a sample is not the point of the circle at that fraction of the turn", format!("{} -> {:?} t={}/16: {:?} expected {:?}", label, c, i, p, q));
+            break;
+        }
+    }
+    if !(dist(p64(c.from()), p64(c.to())) <= tol) {
+        au.bad("Arc::circle does not close", format!("{} -> {:?}", label, c));
+    }
+}
+
+fn audit_centre<S: Sc>(au: &mut Au, arc: &Arc<S>, cls: &str, rng: &mut Rng) {
+    let label = format!("{:?}", arc);
+    let r = RefArc::of(arc);
+    au.st.note_case(&format!("{} {}", S::NAME, label), true);
+    au.inc(&format!("arcs_{}", S::NAME));
+    au.inc(&format!("arcs_class_{}", cls));
+    au.inc(if r.sweep < 0.0 {
+        "arcs_negative_sweep"
+    } else if r.sweep > 0.0 {
+        "arcs_positive_sweep"
+    } else {
+        "arcs_zero_sweep"
+    });
+    if r.sweep.abs() > 2.0 * std::f64::consts::PI {
+        au.inc("arcs_beyond_a_full_turn");
+    }
+    let run = |name: &str, au: &mut Au, f: &mut dyn FnMut(&mut Au)| {
+        if catch(AssertUnwindSafe(|| f(au))).is_none() {
+            au.bad(&format!("{} panicked", name), label.clone());
+        }
+    };
+    let mut r1 = rng.clone();
+    run("sample / sample_tangent / get_angle", au, &mut |au| g_sample(au, arc, &r, &mut r1, &label));
+    let mut r2 = Rng::new(rng.next_u64());
+    run("split / split_range / flip", au, &mut |au| g_split(au, arc, &r, &mut r2, &label));
+    let bcls = if r.sweep.abs() < 1e-3 {
+        "tiny_sweep"
+    } else if cls == "tiny" {
+        "tiny_radii"
+    } else if cls == "far" {
+        "far_centre"
+    } else {
+        "regular"
+    };
+    run("for_each_quadratic_bezier / for_each_cubic_bezier", au, &mut |au| g_bezier(au, arc, &r, bcls, &label));
+    let mut r3 = Rng::new(rng.next_u64());
+    run("for_each_flattened / flattened", au, &mut |au| g_flatten(au, arc, &r, &mut r3, &label));
+    run("bounding_box / extrema", au, &mut |au| g_box(au, arc, &r, &label));
+    let mut r4 = Rng::new(rng.next_u64());
+    run("approximate_length", au, &mut |au| g_length(au, arc, &r, &mut r4, &label));
+    run("to_svg_arc / to_arc", au, &mut |au| g_to_svg(au, arc, &r, &label));
+    run("cast / circle", au, &mut |au| g_misc(au, arc, &r, &label));
+}
+
+// ---------------------------------------------------------------------------------------------------- SVG end point form
+fn gen_svg<S: Sc>(rng: &mut Rng, it: usize) -> (SvgArc<S>, &'static str) {
+    let pi = std::f64::consts::PI;
+    let flags = ArcFlags { large_arc: it % 2 == 0, sweep: (it / 2) % 2 == 0 };
+    let lat = |rng: &mut Rng| (rng.range(-10, 10) as f64, rng.range(-10, 10) as f64);
+    let from = lat(rng);
+    let mut to = lat(rng);
+    if to == from {
+        to.0 += 3.0;
+    }
+    let chord = dist(from, to);
+    let any_rot = |rng: &mut Rng| match rng.below(5) {
+        0 => 0.0,
+        1 => rng.range(-8, 8) as f64 * pi / 2.0,
+        2 => (rng.unit_f64() - 0.5) * 2.0 * pi,
+        3 => (if rng.chance(1, 2) { 1.0 } else { -1.0 }) * (2.0 * pi + rng.unit_f64() * 14.0),
+        _ => (0.6f64).acos(),
+    };
+    let mk = |from: P2, to: P2, rx: f64, ry: f64, rot: f64| SvgArc { from: point(S::of64(from.0), S::of64(from.1)), to: point(S::of64(to.0), S::of64(to.1)), radii: vector(S::of64(rx), S::of64(ry)), x_rotation: Angle::radians(S::of64(rot)), flags };
+    match (it / 4) % 13 {
+        0 => (mk(from, to, chord * (0.6 + rng.unit_f64()), chord * (0.6 + rng.unit_f64()), any_rot(rng)), "normal"),
+        12 => {
+            // end points that nearly coincide: 1e-3 of the radius apart down to the last bit of the coordinates
+            let r = (1 + rng.below(20)) as f64;
+            let from = if rng.chance(1, 3) { (0.0, 0.0) } else { from };
+            let d = r * (10.0f64).powi(-(3 + rng.below(if S::NAME == "f32" { 6 } else { 15 }) as i32));
+            let (dx, dy) = match rng.below(3) {
+                0 => (d, 0.0),
+                1 => (0.0, -d),
+                _ => (-d * 0.6, d * 0.8),
+            };
+            let mut sa = mk(from, (from.0 + dx, from.1 + dy), r, if rng.chance(1, 2) { r } else { (1 + rng.below(20)) as f64 }, if rng.chance(1, 2) { 0.0 } else { any_rot(rng) });
+            if sa.to == sa.from {
+                // the offset is below the resolution of the coordinates: the next representable abscissa
+                let x = sa.from.x.to64();
+                let next = if S::NAME == "f32" { f32::from_bits((x as f32).to_bits() + 1) as f64 } else { f64::from_bits(x.to_bits() + 1) };
+                sa.to.x = S::of64(if x >= 0.0 { next } else { -(if S::NAME == "f32" { f32::from_bits((-x as f32).to_bits() - 1) as f64 } else { f64::from_bits((-x).to_bits() - 1) }) });
+            }
+            (sa, "nearly_coincident")
+        }
+        1 => (mk(from, to, chord * 0.2, chord * 0.3, any_rot(rng)), "too_small"),
+        2 => {
+            // the end points exactly a diameter apart: rf == 1 exactly
+            let r = (1 + rng.below(10)) as f64;
+            let (a, b) = if rng.chance(1, 2) { ((from.0 - r, from.1), (from.0 + r, from.1)) } else { ((from.0 + r, from.1), (from.0 - r, from.1)) };
+            (mk(a, b, r, (1 + rng.below(20)) as f64, 0.0), "diameter")
+        }
+        3 => {
+            let r = (1 + rng.below(10)) as f64;
+            let (a, b) = if rng.chance(1, 2) { ((from.0, from.1 - r), (from.0, from.1 + r)) } else { ((from.0, from.1 + r), (from.0, from.1 - r)) };
+            (mk(a, b, (1 + rng.below(20)) as f64, r, 0.0), "diameter")
+        }
+        4 => (mk(from, from, 1.0 + rng.below(9) as f64, 1.0 + rng.below(9) as f64, any_rot(rng)), "coincident"),
+        5 => {
+            // zero of either sign; one time in four a radius that is not zero but below lyon's EPSILON of either scalar type
+            let z = *rng.pick(&[0.0, -0.0, 1e-9, 1e-5]);
+            let r = 1.0 + rng.below(9) as f64;
+            let (rx, ry) = match rng.below(3) {
+                0 => (z, r),
+                1 => (r, z),
+                _ => (z, z),
+            };
+            (mk(from, to, rx, ry, any_rot(rng)), "zero_radius")
+        }
+        6 => {
+            let (rx, ry) = (chord * (0.3 + rng.unit_f64()), chord * (0.3 + rng.unit_f64()));
+            let (rx, ry) = match rng.below(3) {
+                0 => (-rx, ry),
+                1 => (rx, -ry),
+                _ => (-rx, -ry),
+            };
+            (mk(from, to, rx, ry, any_rot(rng)), "negative")
+        }
+        7 => {
+            let r = 1e-3 * (1 + rng.below(9)) as f64;
+            let k = *rng.pick(&[1.0, 2.0, 5.0]);
+            if rng.chance(1, 2) {
+                // far too small for the chord: scaled up
+                (mk(from, to, r * k, r, any_rot(rng)), "tiny")
+            } else {
+                // a tiny arc near the origin with a chord of its own size
+                let a = (rng.range(-4, 4) as f64 / 8.0, rng.range(-4, 4) as f64 / 8.0);
+                let b = (a.0 + r * (rng.range(1, 8) as f64 / 8.0), a.1 + r * (rng.range(-8, 8) as f64 / 8.0));
+                (mk(a, b, r * k, r, any_rot(rng)), "tiny")
+            }
+        }
+        8 => {
+            let r = 1e4 * (1 + rng.below(9)) as f64;
+            let k = *rng.pick(&[1.0, 2.0, 50.0]);
+            (mk(from, to, r, r / k, any_rot(rng)), "huge")
+        }
+        9 => {
+            let k = (2 + rng.below(49)) as f64;
+            let r = chord * (0.1 + rng.unit_f64());
+            let (rx, ry) = if rng.chance(1, 2) { (r * k, r) } else { (r, r * k) };
+            (mk(from, to, rx, ry, any_rot(rng)), "eccentric")
+        }
+        10 => {
+            // the chord along (or across) the rotation axis
+            let rot = (to.1 - from.1).atan2(to.0 - from.0) + if rng.chance(1, 2) { 0.0 } else { pi / 2.0 };
+            let (rx, ry) = match rng.below(3) {
+                0 => (chord / 2.0, chord * (0.2 + rng.unit_f64())),
+                1 => (chord * (0.2 + rng.unit_f64()), chord / 2.0),
+                _ => (chord * (0.3 + rng.unit_f64()), chord * (0.3 + rng.unit_f64())),
+            };
+            (mk(from, to, rx, ry, rot), "collinear")
+        }
+        _ => {
+            // a circle whose diameter is the chord, under rotations that are multiples of a quarter turn or exceed a turn
+            let rot = if rng.chance(1, 2) { rng.range(-8, 8) as f64 * pi / 2.0 } else { (if rng.chance(1, 2) { 1.0 } else { -1.0 }) * (2.0 * pi + rng.unit_f64() * 14.0) };
+            (mk(from, to, chord / 2.0, chord / 2.0, rot), "half_chord_radius")
+        }
+    }
+}
+
+fn audit_svg<S: Sc>(au: &mut Au, sa: &SvgArc<S>, kind: &str, rng: &mut Rng) {
+    let label = format!("{:?}", sa);
+    let me = S::ME;
+    let pi = std::f64::consts::PI;
+    au.st.note_case(&format!("{} {}", S::NAME, label), true);
+    au.inc(&format!("svg_arcs_{}", S::NAME));
+    au.inc(&format!("svg_arcs_kind_{}", kind));
+    au.inc(&format!("svg_arcs_flags_{}_{}", sa.flags.large_arc as u8, sa.flags.sweep as u8));
+    let (from, to) = (p64(sa.from), p64(sa.to));
+    let (rx, ry) = (sa.radii.x.to64(), sa.radii.y.to64());
+    let rot = sa.x_rotation.radians.to64();
+    // ---- is_straight_line: SVG renders a straight line when a radius is zero and omits the arc when the end points coincide
+    au.inc("is_straight_line");
+    let straight = match catch(AssertUnwindSafe(|| sa.is_straight_line())) {
+        Some(x) => x,
+        None => {
+            au.bad("is_straight_line panicked", label.clone());
+            return;
+        }
+    };
+    let zero_radius = rx == 0.0 || ry == 0.0;
+    let same = from == to;
+    if (zero_radius || same) && !straight {
+        au.bad("is_straight_line is false for a zero radius / coincident end points", label.clone());
+    }
+    if !zero_radius && !same && rx.abs() >= 1e-3 && ry.abs() >= 1e-3 && straight {
+        au.bad("is_straight_line is true for an arc with non-zero radii and distinct end points", label.clone());
+    }
+    // every route of SvgArc itself
+    type Routes<S> = (Vec<QuadraticBezierSegment<S>>, Vec<(QuadraticBezierSegment<S>, Range<S>)>, Vec<CubicBezierSegment<S>>, Vec<LineSegment<S>>, Vec<(LineSegment<S>, Range<S>)>);
+    let tolerance = S::of64(0.01 * (rx.abs().max(ry.abs())).max(1e-3));
+    let routes = |tolerance: S| -> Routes<S> {
+        let mut q = Vec::new();
+        sa.for_each_quadratic_bezier(&mut |c: &QuadraticBezierSegment<S>| q.push(*c));
+        let mut qt = Vec::new();
+        sa.for_each_quadratic_bezier_with_t(&mut |c: &QuadraticBezierSegment<S>, t: Range<S>| qt.push((*c, t)));
+        let mut cu = Vec::new();
+        sa.for_each_cubic_bezier(&mut |c: &CubicBezierSegment<S>| cu.push(*c));
+        let mut l = Vec::new();
+        sa.for_each_flattened(tolerance, &mut |s: &LineSegment<S>| {
+            if l.len() < 1_000_000 {
+                l.push(*s)
+            }
+        });
+        let mut lt = Vec::new();
+        sa.for_each_flattened_with_t(tolerance, &mut |s: &LineSegment<S>, t: Range<S>| {
+            if lt.len() < 1_000_000 {
+                lt.push((*s, t))
+            }
+        });
+        (q, qt, cu, l, lt)
+    };
+    au.inc("svg_for_each_quadratic_bezier");
+    au.inc("svg_for_each_quadratic_bezier_with_t");
+    au.inc("svg_for_each_cubic_bezier");
+    au.inc("svg_for_each_flattened");
+    au.inc("svg_for_each_flattened_with_t");
+    let (q, qt, cu, l, lt) = match catch(AssertUnwindSafe(|| routes(tolerance))) {
+        Some(x) => x,
+        None => {
+            au.bad("SvgArc::for_each_* panicked", label.clone());
+            return;
+        }
+    };
+    if straight {
+        au.inc("svg_straight_lines");
+        // to_arc is documented to refuse these ("do not convert"): whatever it does is not flagged
+        match catch(AssertUnwindSafe(|| sa.to_arc())) {
+            None => au.inc("to_arc_refuses_a_straight_line_by_panicking"),
+            Some(_) => au.inc("to_arc_converts_a_straight_line"),
+        }
+        if same {
+            // SVG omits the arc; lyon emits one zero-length curve (counted, not flagged)
+            au.inc("svg_coincident_end_points_emit_one_zero_length_curve");
+        } else if !zero_radius {
+            au.inc("is_straight_line_for_small_non_zero_radii");
+        }
+        let on_seg = |p: P2| seg_dist(p, from, to) <= 4.0 * me * (from.0.abs() + from.1.abs() + to.0.abs() + to.1.abs());
+        let one = S::ONE;
+        let ok = q.len() == 1
+            && qt.len() == 1
+            && cu.len() == 1
+            && l.len() == 1
+            && lt.len() == 1
+            && q[0] == qt[0].0
+            && (q[0].from, q[0].to) == (sa.from, sa.to)
+            && (cu[0].from, cu[0].to) == (sa.from, sa.to)
+            && (l[0].from, l[0].to) == (sa.from, sa.to)
+            && l[0] == lt[0].0
+            && qt[0].1 == (S::ZERO..one)
+            && lt[0].1 == (S::ZERO..one)
+            && (1..8).all(|j| on_seg(p64(q[0].sample(S::of64(j as f64 / 8.0)))) && on_seg(p64(cu[0].sample(S::of64(j as f64 / 8.0)))));
+        if !ok {
+            au.bad("a straight-line SVG arc is not rendered as the one segment from its start to its end", format!("{} -> {:?} / {:?} / {:?}", label, q, cu, l));
+        }
+        return;
+    }
+    // ---- conversion
+    au.inc("to_arc");
+    au.inc("from_svg_arc");
+    let arc = match catch(AssertUnwindSafe(|| (sa.to_arc(), Arc::from_svg_arc(sa), <Arc<S> as From<SvgArc<S>>>::from(*sa)))) {
+        Some((a, b, c)) => {
+            if a != b || a != c {
+                au.bad("to_arc, from_svg_arc and From<SvgArc> differ", label.clone());
+            }
+            a
+        }
+        None => {
+            au.bad("to_arc / from_svg_arc panicked", label.clone());
+            return;
+        }
+    };
+    let r = RefArc::of(&arc);
+    let label = format!("{} -> {:?}", label, arc);
+    if !(r.cx.is_finite() && r.cy.is_finite() && r.rx.is_finite() && r.ry.is_finite() && r.start.is_finite() && r.sweep.is_finite()) {
+        au.bad("to_arc gives a non-finite arc", label.clone());
+        return;
+    }
+    // the reference of the conversion (SVG implementation notes F.6.5 / F.6.6), in the frame in which the ellipse is a unit circle:
+    // the half chord has length sqrt(rf) there; rf > 1: radii scaled by sqrt(rf) and the chord becomes a diameter; otherwise the
+    // swept angle is 2 asin(sqrt(rf)) or its complement to a full turn
+    let (arx, ary) = (rx.abs(), ry.abs());
+    let (c, s) = (rot.cos(), rot.sin());
+    let hd = ((from.0 - to.0) / 2.0, (from.1 - to.1) / 2.0);
+    let p = (c * hd.0 + s * hd.1, -s * hd.0 + c * hd.1);
+    let rf = (p.0 / arx).powi(2) + (p.1 / ary).powi(2);
+    let k_want = if rf > 1.0 { rf.sqrt() } else { 1.0 };
+    let ratio = arx.max(ary) / arx.min(ary);
+    let (kx, ky) = (r.rx / arx, r.ry / ary);
+    au.worst("svg_radius_factor_error_in_ME", ((kx / k_want - 1.0).abs().max((ky / k_want - 1.0).abs())) / me, &label);
+    if !((kx / k_want - 1.0).abs() <= 16.0 * me * ratio * ratio && (ky / k_want - 1.0).abs() <= 16.0 * me * ratio * ratio) {
+        au.bad("the radii are not the given ones (absolute values), scaled up by the smallest factor that makes the chord fit", format!("{}: factors {} {} expected {}", label, kx, ky, k_want));
+    }
+    if rf <= 1.0 - 1e-6 && (arc.radii.x.to64() != arx || arc.radii.y.to64() != ary) {
+        au.bad("radii that are large enough were changed", label.clone());
+    }
+    if arc.x_rotation != sa.x_rotation {
+        au.bad("to_arc changes the rotation", label.clone());
+    }
+    let ptol = 4.0 * r.pt_tol(me) + 8.0 * me * (from.0.abs() + from.1.abs() + to.0.abs() + to.1.abs());
+    let (d0, d1) = (dist(p64(arc.from()), from), dist(p64(arc.to()), to));
+    au.worst(&format!("svg_end_point_error_in_tol_permille_{}", kind), 1000.0 * d0.max(d1) / ptol, &label);
+    if !(d0.max(d1) <= ptol) {
+        au.bad("the centre-form arc does not start / end at the given points", format!("{}: from {:?} to {:?} (off by {}, allowed {})", label, arc.from(), arc.to(), d0.max(d1), ptol));
+    }
+    let sw = r.sweep;
+    if !(sw.abs() <= 2.0 * pi * (1.0 + 4.0 * me)) {
+        au.bad("the sweep exceeds a full turn", format!("{}: sweep {}", label, sw));
+    }
+    // direction and size selected by the flags: the signed sweep is +-(2 asin(sqrt(rf))) or its complement to a full turn.
+    // The angles are found in the unit-circle frame with an absolute error of a few ME, more when the chord is close to a
+    // diameter (the derivative of asin); a small arc that is shorter than this may come out as a zero sweep.
+    let half = 2.0 * rf.min(1.0).sqrt().asin();
+    let dir = if sa.flags.sweep { 1.0 } else { -1.0 };
+    let mut sub_resolution = false;
+    if rf < 1.0 - 1e-3 {
+        let want = dir * if sa.flags.large_arc { 2.0 * pi - half } else { half };
+        let e = (sw - want).abs();
+        let allowed = 64.0 * me * 2.0 * pi / (1.0 - rf).sqrt();
+        sub_resolution = half <= allowed;
+        if e <= allowed {
+            au.worst("svg_sweep_error_in_allowed_permille", 1000.0 * e / allowed, &label);
+        } else {
+            if sw != 0.0 && (sw > 0.0) != sa.flags.sweep {
+                au.bad("the sweep direction does not follow the sweep flag", format!("{}: sweep {} expected {}", label, sw, want));
+            } else if (sw.abs() > pi) != sa.flags.large_arc {
+                au.bad("the sweep size does not follow the large-arc flag", format!("{}: sweep {} expected {}", label, sw, want));
+            } else {
+                au.bad("the swept angle is not the one subtended by the chord", format!("{}: sweep {} expected {} (rf {}, allowed error {})", label, sw, want, rf, allowed));
+            }
+        }
+    } else {
+        // the chord is (nearly) a diameter: both candidates are (nearly) half turns, in the direction of the flag
+        let e = (sw.abs() - pi).abs();
+        let allowed = 2.2 * (1.0 - rf.min(1.0)).sqrt() + 16.0 * me.sqrt() * ratio;
+        if !(e <= allowed) {
+            au.bad("an arc whose chord is a diameter (radii too small, or just large enough) does not sweep half a turn", format!("{}: sweep {} (rf {})", label, sw, rf));
+        }
+        if (sw > 0.0) != sa.flags.sweep {
+            au.bad("the sweep direction does not follow the sweep flag", format!("{}: sweep {}", label, sw));
+        }
+    }
+    if kind == "diameter" {
+        // lattice inputs with rf == 1 exactly: the centre is the mid-point, both sweeps are half turns
+        au.inc("svg_exact_diameter");
+        let mid = ((from.0 + to.0) / 2.0, (from.1 + to.1) / 2.0);
+        if !(dist((r.cx, r.cy), mid) <= 8.0 * me * (1.0 + mid.0.abs() + mid.1.abs() + r.rmax())) || !((sw.abs() - pi).abs() <= 8.0 * me) {
+            au.bad("end points exactly a diameter apart: the centre is not the mid-point / the sweep is not a half turn", format!("{}: centre {:?} sweep {}", label, arc.center, sw));
+        }
+        if rf != 1.0 {
+            au.inc("svg_exact_diameter_rf_not_exactly_one_in_the_reference");
+        }
+    }
+    // ---- converting back returns the original
+    au.inc("to_svg_arc");
+    if let Some(back) = catch(AssertUnwindSafe(|| arc.to_svg_arc())) {
+        let same_flags = back.flags == sa.flags;
+        if !(dist(p64(back.from), from) <= ptol && dist(p64(back.to), to) <= ptol) || back.x_rotation != sa.x_rotation || back.radii != arc.radii {
+            au.bad("to_svg_arc(to_arc(a)) does not return the end points / rotation / (scaled) radii of a", format!("{} -> {:?}", label, back));
+        }
+        // (a small arc below the resolution of the angles has no direction left; near a half turn both sizes are the same arc)
+        if rf < 1.0 - 1e-3 && !same_flags && !sub_resolution {
+            au.bad("to_svg_arc(to_arc(a)) does not return the flags of a", format!("{} -> {:?}", label, back));
+        }
+        if back.flags.sweep != sa.flags.sweep && !sub_resolution {
+            au.bad("to_svg_arc(to_arc(a)) does not return the sweep flag of a", format!("{} -> {:?}", label, back));
+        }
+    } else {
+        au.bad("to_svg_arc panicked", label.clone());
+    }
+    // ---- the routes of SvgArc are those of the centre form
+    let same_routes = catch(AssertUnwindSafe(|| {
+        let mut q2 = Vec::new();
+        arc.for_each_quadratic_bezier(&mut |c: &QuadraticBezierSegment<S>| q2.push(*c));
+        let mut qt2 = Vec::new();
+        arc.for_each_quadratic_bezier_with_t(&mut |c: &QuadraticBezierSegment<S>, t: Range<S>| qt2.push((*c, t)));
+        let mut cu2 = Vec::new();
+        arc.for_each_cubic_bezier(&mut |c: &CubicBezierSegment<S>| cu2.push(*c));
+        let mut l2 = Vec::new();
+        arc.for_each_flattened(tolerance, &mut |s: &LineSegment<S>| {
+            if l2.len() < 1_000_000 {
+                l2.push(*s)
+            }
+        });
+        let mut lt2 = Vec::new();
+        arc.for_each_flattened_with_t(tolerance, &mut |s: &LineSegment<S>, t: Range<S>| {
+            if lt2.len() < 1_000_000 {
+                lt2.push((*s, t))
+            }
+        });
+        q2 == q && qt2 == qt && cu2 == cu && l2 == l && lt2 == lt
+    }));
+    match same_routes {
+        None => au.bad("a for_each_* of the converted arc panicked", label.clone()),
+        Some(false) => au.bad("SvgArc::for_each_* differ from the same calls on to_arc()", label.clone()),
+        Some(true) => {}
+    }
+    if sw == 0.0 {
+        // distinct end points closer than the angles can tell: the centre form has a zero sweep and nothing is emitted
+        // (counted, not flagged: the gap is below the resolution of the arc)
+        au.inc("svg_distinct_end_points_converted_to_a_zero_sweep");
+        if !(q.is_empty() && cu.is_empty()) {
+            au.bad("curves are emitted for a zero sweep", label.clone());
+        }
+        return;
+    }
+    // they start and end on the given end points: how exactly
+    for (what, first, last) in [("quadratic", q.first().map(|x| x.from), q.last().map(|x| x.to)), ("cubic", cu.first().map(|x| x.from), cu.last().map(|x| x.to)), ("flattened", l.first().map(|x| x.from), l.last().map(|x| x.to))] {
+        match (first, last) {
+            (Some(a), Some(b)) => {
+                let (e0, e1) = (dist(p64(a), from), dist(p64(b), to));
+                au.worst("svg_route_end_point_error_in_tol_permille", 1000.0 * e0.max(e1) / ptol, &label);
+                if a == sa.from && b == sa.to {
+                    au.inc("svg_route_end_points_bit_exact");
+                } else {
+                    au.inc("svg_route_end_points_differ_in_the_last_bits");
+                }
+                if !(e0 <= ptol && e1 <= 2.0 * ptol) {
+                    au.bad(&format!("SvgArc: the {} sequence does not run from the given start point to the given end point", what), format!("{}: {:?} .. {:?}", label, a, b));
+                }
+            }
+            _ => au.bad(&format!("SvgArc: the {} sequence is empty", what), label.clone()),
+        }
+    }
+    // ---- and the converted arc goes through the centre-form checks
+    let cls = if r.sweep.abs() < 1e-3 {
+        "tiny_sweep"
+    } else if kind == "tiny" {
+        "tiny_radii"
+    } else {
+        "regular"
+    };
+    let run = |name: &str, au: &mut Au, f: &mut dyn FnMut(&mut Au)| {
+        if catch(AssertUnwindSafe(|| f(au))).is_none() {
+            au.bad(&format!("{} panicked", name), label.clone());
+        }
+    };
+    let mut r1 = Rng::new(rng.next_u64());
+    run("sample / sample_tangent / get_angle", au, &mut |au| g_sample(au, &arc, &r, &mut r1, &label));
+    run("for_each_quadratic_bezier / for_each_cubic_bezier", au, &mut |au| g_bezier(au, &arc, &r, cls, &label));
+    let mut r3 = Rng::new(rng.next_u64());
+    run("for_each_flattened / flattened", au, &mut |au| g_flatten(au, &arc, &r, &mut r3, &label));
+    run("bounding_box / extrema", au, &mut |au| g_box(au, &arc, &r, &label));
+}
+
+fn audit<S: Sc>(st: &mut Stats, args: &Args) {
+    let mut rng = Rng::new(args.seed ^ 0x1313 ^ if S::NAME == "f32" { 0x3200 } else { 0x6400 });
+    let (n_centre, n_svg) = if args.thorough() { (8000, 4000) } else { (1000, 500) };
+    let mut au = Au { st, name: S::NAME, worst: BTreeMap::new(), listed: BTreeMap::new() };
+    // ArcFlags: the default is the small arc in the negative direction (both flags false)
+    au.inc("arc_flags_default");
+    let d = ArcFlags::default();
+    if d.large_arc || d.sweep || d != (ArcFlags { large_arc: false, sweep: false }) {
+        au.bad("ArcFlags::default() is not { large_arc: false, sweep: false }", format!("{:?}", d));
+    }
+    for it in 0..n_centre {
+        let (arc, cls) = gen_centre::<S>(&mut rng, it);
+        audit_centre(&mut au, &arc, cls, &mut rng);
+    }
+    for it in 0..n_svg {
+        let (sa, kind) = gen_svg::<S>(&mut rng, it);
+        audit_svg(&mut au, &sa, kind, &mut rng);
+    }
+    au.finish();
 }
